@@ -218,6 +218,98 @@ def extras (a : Answer) : Extras where
   dunbddSuffix := a.rayDualOpt && (isProblemInfeasible a.code || isProblemIndiffInfOrUnb a.code)
   iisSuffix := (isProblemInfOrUnb a.code || isProblemIndiffInfOrUnb a.code) && a.iisOpt
 
+
+/-! ## Round 4: composition of the solve message, reporting steps, registry insertion (hand model; proved equal to
+the definitions regenerated from the source in `MpVerif.Gen.StatusReport`, see `C10_gen_*` in Props) -/
+
+/-- a solution candidate with objective values is being reported -/
+def objGuard (a : Answer) : Bool := isProblemSolvedOrFeasible a.code && decide (a.nObj ≠ 0)
+
+/-- `StdBackend::ReportSolution2AMPL`, step by step in source order: label and guard.
+`write <fmt>` appends to the solve message. -/
+def msgTable : List (String × (Answer → Bool)) := [
+  ("write {}: {}", fun _ => true),                                   -- "<solver>: <status text>"
+  ("write ; objective {}", fun a => isProblemSolvedOrFeasible a.code && decide (a.nObj ≠ 0) && decide (a.nObj > 1)),
+  ("write \nIndividual objective values:", fun a => isProblemSolvedOrFeasible a.code && decide (a.nObj ≠ 0) && decide (a.nObj > 1)),
+  ("each: write \n\t_sobj[{}] = {}", fun a => isProblemSolvedOrFeasible a.code && decide (a.nObj ≠ 0) && decide (a.nObj > 1)),
+  ("set obj_value", fun a => isProblemSolvedOrFeasible a.code && decide (a.nObj ≠ 0) && (!decide (a.nObj > 1))),
+  ("write ; ", fun a => isProblemSolvedOrFeasible a.code && decide (a.nObj ≠ 0) && (!decide (a.nObj > 1))),
+  ("write feasrelax ", fun a => isProblemSolvedOrFeasible a.code && decide (a.nObj ≠ 0) && (!decide (a.nObj > 1)) && a.feasrelax),
+  ("write objective {}", fun a => isProblemSolvedOrFeasible a.code && decide (a.nObj ≠ 0) && (!decide (a.nObj > 1))),
+  ("write \nOriginal objective = {}", fun a => isProblemSolvedOrFeasible a.code && decide (a.nObj ≠ 0) && (!decide (a.nObj > 1)) && a.origObj),
+  ("call RoundSolution", fun a => isProblemSolvedOrFeasible a.code && (a.roundOpt && a.isMIP)),
+  ("write \nkappa value: {}", fun a => (a.kappaOpt && true)),
+  ("write \n", fun a => a.extraMsg),
+  ("write <solver_msg_extra_>", fun a => a.extraMsg),
+  ("write \n{} alternative solution(s)\n  with objective values {}..{}\n  written to '{}1.sol' ... '{}{}.sol'.\n", fun a => decide (a.nAltReported ≠ 0) && a.altObj),
+  ("write \n{} alternative solution(s)\n  written to '{}1.sol' ... '{}{}.sol'.\n", fun a => decide (a.nAltReported ≠ 0) && (!a.altObj)),
+  ("write {} alternative solution checks failed.\n", fun a => decide (a.nAltReported ≠ 0) && a.altChkFailed),
+  ("write \n{}", fun a => a.hasWarnings),
+  ("call HandleSolution", fun _ => true)
+]
+
+/-- the steps executed for an answer, in order -/
+def msgSteps (a : Answer) : List String := (msgTable.filter (fun p => p.2 a)).map (·.1)
+
+/-- labels of the steps that put the objective value into the message -/
+def objectiveLabels : List String := ["write ; objective {}", "write objective {}"]
+
+/-- short names of the pieces the harness can recognise in a real message, in the order of `msgTable` -/
+def marker (label : String) : Option String :=
+  if label = "write {}: {}" then some "status"
+  else if label = "write ; objective {}" ∨ label = "write objective {}" then some "objective"
+  else if label = "write \nIndividual objective values:" then some "individual"
+  else if label = "write feasrelax " then some "feasrelax"
+  else if label = "write \nOriginal objective = {}" then some "original"
+  else if label = "write \nkappa value: {}" then some "kappa"
+  else if label = "write <solver_msg_extra_>" then some "extra"
+  else if label = "write \n{} alternative solution(s)\n  with objective values {}..{}\n  written to '{}1.sol' ... '{}{}.sol'.\n" then some "alt"
+  else if label = "write \n{} alternative solution(s)\n  written to '{}1.sol' ... '{}{}.sol'.\n" then some "alt"
+  else if label = "write \n{}" then some "warnings"
+  else none
+
+/-- the recognisable pieces of the message for an answer, in order -/
+def msgMarkers (a : Answer) : List String := (msgSteps a).filterMap marker
+
+/-- the reporting sequence: `ReportResults` = suffixes, then the solution; `ReportSolution` = to AMPL (.sol), then via solver -/
+def stepsReportResults : List String := ["ReportSuffixes", "ReportSolution"]
+def stepsReportSolution : List String := ["ReportSolution2AMPL", "ReportSolutionViaSolver"]
+def stepsReportSuffixes : List String := ["ReportStandardSuffixes", "ReportCustomSuffixes"]
+
+/-- the status predicates of `StdBackend` covered by `Gen.Status.predTable` -/
+def predicateNames : List String := ["IsProblemIndiffInfOrUnb", "IsProblemInfOrUnb", "IsProblemInfeasible", "IsProblemSolved",
+  "IsProblemSolvedOrFeasible", "IsProblemUnbounded", "IsSolStatusRetrieved"]
+
+/-! ### the solve result registry (`std::set<RegEntry>`, `SolveResultRegistry::AddSolveResults`) -/
+
+/-- `RegEntry::operator<`: by first code; among entries starting at the same code the wider range first
+    ("range 100-199 before range 100-149 before single code 100") -/
+def regLt (x y : Int × Int) : Bool := decide (x.1 < y.1) || (decide (x.1 = y.1) && decide (x.2 > y.2))
+
+/-- entries are "the same key" for the set iff neither is less -/
+def regEquiv (x y : Int × Int) : Bool := !regLt x y && !regLt y x
+
+abbrev RegRow := Int × Int × String
+
+/-- ordered insertion into the set; an equivalent key already present is *kept* (`std::set::insert` does not overwrite) -/
+def regInsert : List RegRow → RegRow → List RegRow
+  | [], e => [e]
+  | r :: rs, e =>
+    if regLt (e.1, e.2.1) (r.1, r.2.1) then e :: r :: rs
+    else if regLt (r.1, r.2.1) (e.1, e.2.1) then r :: regInsert rs e
+    else r :: rs
+
+def regPresent (reg : List RegRow) (e : RegRow) : Bool := reg.any (fun r => regEquiv (r.1, r.2.1) (e.1, e.2.1))
+
+/-- `AddSolveResults(sm, ifCanReplace)`: entries of `sm` one after the other; `none` = error raised
+    ("Duplicated solve code range") -/
+def addResults (reg : List RegRow) (sm : List RegRow) (canReplace : Bool) : Option (List RegRow) :=
+  match sm with
+  | [] => some reg
+  | e :: rest =>
+    if !canReplace && regPresent reg e then none
+    else addResults (regInsert reg e) rest canReplace
+
 def b2s (b : Bool) : String := if b then "1" else "0"
 
 def Report.toStr (r : Report) : String :=
